@@ -3,7 +3,7 @@ from __future__ import annotations
 
 import inspect
 
-from .rules import buffer, connect, data, grid, integ, life, link, misc, sched, spill, valid
+from .rules import buffer, connect, data, grid, integ, life, link, misc, sched, spill, spill2, valid
 
 COMMON_ASSUMPTIONS = [
     "Python grammar and the stdlib `ast` module; finam is never imported or run: verdicts are about the source text on disk",
@@ -37,7 +37,7 @@ SCHED_MODEL = (
 )
 
 prop("C01", [("R01", sched.r01_next_pull), ("R02", sched.r02_sched_agree), ("R03", sched.r03_r09_step), ("R09", sched.r09_structure),
-             ("R17", buffer.r17_nearest), ("R04", buffer.r04_cmp)],
+             ("R17", buffer.r17_nearest), ("R17p", link.r17_pushpath), ("R04", buffer.r04_cmp)],
      "Static, clause level: (R01) every in-repo time component pulls in _update exactly at the time _next_time announces; (R02) the "
      "dependency walk of _find_dependencies, abstractly interpreted over all chains of adapter kinds (length <= 3 quick / 5 thorough, "
      "time-stepped and pull-based owners, shared outputs, static outputs), demands from the source exactly the time the data path "
@@ -69,7 +69,7 @@ prop("C04", [("R09", sched.r09_structure), ("R09s", sched.r03_r09_step), ("R10",
      "exactly the stuck components as soon as an iteration makes no progress; (R10b) every in-repo _connect reaches try_connect; "
      "(R02) delays split over several adapters accumulate. NOT decided: the arithmetic sufficiency of delays vs. steps.", [SCHED_MODEL])
 
-prop("C06", [("R11", connect.r11_r12_connect), ("R13", connect.r13_nodata), ("R14", connect.r14_doublepush), ("R10", life.r10_stall),
+prop("C06", [("R11", connect.r11_r12_connect), ("R11r", connect.r11r_rules), ("R13", connect.r13_nodata), ("R14", connect.r14_doublepush), ("R10", life.r10_stall),
              ("R10b", life.r10b_mustconnect), ("R06", life.r06_life)],
      "Static: (R11/R12) ConnectHelper.connect, abstractly interpreted against 30 scripted peers (each exchange succeeding at its own "
      "attempt), reports CONNECTED iff every declared exchange is done, CONNECTING iff something new was exchanged in this call, "
@@ -78,7 +78,8 @@ prop("C06", [("R11", connect.r11_r12_connect), ("R13", connect.r13_nodata), ("R1
      "is published for composition start and producer start (fresh copy); (R10/R10b) connect loop terminates / lists stuck "
      "components. NOT decided: user _connect hooks, convergence speed.")
 
-prop("C07", [("R15", data.r15_fields), ("R15g", data.r15g_gridcompat), ("R16", data.r16_getinfo), ("R37", data.r37_masktable),
+prop("C07", [("R15", data.r15_fields), ("R15c", data.r15c_copy_with), ("R15g", data.r15g_gridcompat), ("R16", data.r16_getinfo),
+             ("R11", connect.r11_r12_connect), ("R11r", connect.r11r_rules), ("R37", data.r37_masktable),
              ("R37e", data.r37e_masks_equal_layout), ("R41", misc.r41_masktruth), ("R34", grid.r34_transdir)],
      "Static: (R15) decision table of Info.accepts (every incompatible field recorded, unset fields tolerated only from downstream), "
      "both directions checked with a conflict ending in FinamMetaDataError, Output.get_info fills unset fields before counting the "
@@ -87,21 +88,23 @@ prop("C07", [("R15", data.r15_fields), ("R15g", data.r15g_gridcompat), ("R16", d
      "grid compatibility (np.allclose on coordinates) and unit dimensionality (pint).")
 
 prop("C08", [("R17", buffer.r17_nearest), ("R17p", link.r17_pushpath), ("R18", link.r18_pullpath), ("R04", buffer.r04_cmp),
-             ("R19", grid.r19_taxis), ("R36", data.r36_units), ("R34", grid.r34_transdir), ("R33", grid.r33_mirror)],
+             ("R19", grid.r19_taxis), ("R36", data.r36_units), ("R34", grid.r34_transdir), ("R33", grid.r33_mirror),
+             ("R37e", data.r37e_masks_equal_layout), ("R25", spill2.r25s_pack), ("R22", spill.r22_pack)],
      "Static: (R17) Output.get_data over all order types (<=3/5 publications x request positions incl. midpoints) serves the nearest "
      "publication and refuses everything outside [oldest, newest]; push_data stages are ordered (time check, guards, prepare, "
      "memory-sharing refusal, pack, append, publish time, notify); (R18) every pull goes through transform -> to_units -> check; "
      "(R19) no time-leading data reaches a rank-sensitive grid transform; (R36) relabel iff equivalent, convert otherwise; "
      "(R33/R34) layout algebra of the grid transform. NOT decided: numeric equality of values, shape normalisation in prepare.")
 
-prop("C09", [("R20", link.r20_target), ("R21", buffer.r21_evict), ("R25", spill.r25_spillwire), ("R23", spill.r23_spillfree)],
+prop("C09", [("R20", link.r20_target), ("R21", buffer.r21_evict), ("R25", spill2.r25s_pack), ("R23", spill2.r23s_finalize)],
      "Static: (R20) the end point an adapter registers with pinged() is the one named in its pulls, for all 18 adapter classes; "
      "(R21) decision table of Output.get_data/_clear_data over order types with 1-2 consumers (plain or adapter, lagging, never "
      "pulled) and of every buffering adapter: exactly the entries older than the last one at/before the slowest consumer's request "
      "are dropped, files removed, RAM counter adjusted; (R25/R23) retained spilled entries keep unique files. NOT decided: the premise "
      "of non-decreasing requests (follows from C01/C03 for driver-made requests).")
 
-prop("C10", [("R22", spill.r22_pack), ("R23", spill.r23_spillfree), ("R24", spill.r24_spillfmt), ("R25", spill.r25_spillwire)],
+prop("C10", [("R22", spill.r22_pack), ("R23", spill2.r23s_finalize), ("R24", spill2.r24s_format), ("R25", spill2.r25s_pack),
+             ("R21", buffer.r21_evict)],
      "Static: (R22) packed/unpacked typestate over every read of a spill container's payload: no packed entry (possibly a file name) "
      "reaches a return, arithmetic or foreign call without _unpack; (R23) every eviction removes the file / decrements the RAM "
      "counter in the right branch and Composition's finalize path reaches, for every class owning a spill container, code removing "
